@@ -678,3 +678,131 @@ def drv_solve(case):
                             "direct": {"rows": direct["rows"], "cols": direct["cols"]}, "returned": returned, "reported": reported, "exc": exc,
                             "enum": _box_of_cols(rc["cols"]) <= (1 << 10), "after": proj.node(m, tok)})
     return out
+
+# ============================================================================= call histories (C09, C18)
+import hashlib as _hashlib
+
+def _abs_call(obj, op, d, rule, tok, case):
+    """performs one public call on obj; returns (abstract result JSON-able, new object or None)"""
+    import puan, puan.logic.plog as pg
+    from . import solvers
+    D = {k: (tuple(v) if v[0] != v[1] else int(v[0])) for k, v in (d or {}).items()}
+    if op == "evaluate":
+        return proj.bounds(obj.evaluate(dict(D))), None
+    if op == "evaluate_all":
+        return sorted(proj.pairs_iv(obj.evaluate_propositions(dict(D)), tok)), None
+    if op == "assume":
+        return proj.node(obj.assume(dict(D)), tok), None
+    if op == "reduce":
+        return proj.node(obj.reduce(), tok), None
+    if op == "negate":
+        return proj.node(obj.negate(), tok), None
+    if op == "errors":
+        return sorted(str(getattr(x, "value", x)) for x in obj.errors()), None
+    if op == "to_json":
+        return proj.jdoc(json.loads(json.dumps(obj.to_json())), tok), None
+    if op == "to_b64":
+        return _hashlib.sha256(obj.to_b64().encode()).hexdigest()[:24], None
+    if op == "to_poly":
+        r = []
+        for active in (True, False):
+            rows, cols = proj.polyhedron(obj.to_ge_polyhedron(active=active), tok)
+            r.append({"rows": rows, "cols": cols})
+        return r, None
+    if op == "flatten":
+        return [[tok(x.id), proj.bounds(x.bounds)] for x in obj.flatten()], None
+    if op == "cfg_poly":
+        return proj.cfgpoly(obj.ge_polyhedron, tok), None
+    if op == "default_prios":
+        return sorted([tok(k), proj.I(v)] for k, v in obj.default_prios.items()), None
+    if op == "leafs":
+        return [[tok(v.id), proj.bounds(v.bounds)] for v in obj.leafs()], None
+    if op == "select":
+        lv = [v.id for v in proj.leaves(obj)]
+        prios = [{}, {lv[0]: 1}] if lv else [{}]
+        out = []
+        ncols = len(proj.leaves(obj)) + len(_compounds(obj))
+        for only in (False, True):
+            s = solvers.Capture("exact" if ncols <= 13 else "capture")       # brute force only while the box is small
+            res = list(obj.select(*prios, solver=s, only_leafs=only))
+            out.append([sorted([tok(k), proj.I(v)] for k, v in (r if isinstance(r, dict) else r[0]).items()) for r in res])
+        return out, None
+    if op == "add":
+        rule_obj = B.build(rule)
+        try:
+            new = obj.add(rule_obj)
+        except Exception as ex:
+            return {"refused": True, "exc": type(ex).__name__}, None
+        return {"refused": False, "node": proj.node(new, tok), "dp": sorted([tok(k), proj.I(v)] for k, v in new.default_prios.items()),
+                "poly": proj.cfgpoly(new.ge_polyhedron, tok), "sel": _abs_call(new, "select", None, None, tok, case)[0]}, new
+    raise ValueError("unknown op " + op)
+
+def _add_rule(r, rule, keep_id):
+    r2 = dict(r); r2["a"] = list(r["a"]) + [rule]; r2["id"] = keep_id
+    return r2
+
+def drv_reference(case):
+    """the reference of a history: every call is made on a FRESHLY BUILT identical object (built from the recipe the handle
+    is bound to at that point), in a pristine process forked before any library call was made"""
+    import puan.modules.configurator as cc
+    tok = proj.Tok()
+    rcp = dict(case["handles"])
+    out = []
+    for c in case["calls"]:
+        h, op = c["h"], c["op"]
+        obj = B.build(rcp[h])
+        if op == "add":
+            # direct construction with the old rules followed by the new one, under the configurator's id
+            rule_obj = B.build(c["rule"])
+            if rule_obj.id in [p.id for p in obj.propositions]:
+                res = {"refused": True, "exc": "Exception"}
+            else:
+                new = cc.StingyConfigurator(*(list(obj.propositions) + [rule_obj]), id=obj.id)
+                res = {"refused": False, "node": proj.node(new, tok), "dp": sorted([tok(k), proj.I(v)] for k, v in new.default_prios.items()),
+                       "poly": proj.cfgpoly(new.ge_polyhedron, tok), "sel": _abs_call(new, "select", None, None, tok, case)[0]}
+                rcp[h] = _add_rule(rcp[h], c["rule"], obj.id)
+        else:
+            res, _ = _abs_call(obj, op, c.get("d"), c.get("rule"), tok, case)
+        out.append(res)
+    return [{"op": "ref", "res": out}]
+
+def core_sha(obj):
+    return _hashlib.sha256(json.dumps(obj, sort_keys=True, default=str).encode()).hexdigest()[:20]
+
+def drv_history(case):
+    """executes a call history on live objects held in one store (long-lived worker process: earlier histories have
+    run in the same process), records the projected state of EVERY live object before and after every call"""
+    import puan
+    tok = proj.Tok()
+    store = {h: B.build(r) for h, r in case["handles"].items()}
+    steps = []
+    ghosts = 0
+    for k, c in enumerate(case["calls"]):
+        h, op = c["h"], c["op"]
+        obj = store[h]
+        before = [[k, proj.node(v, tok)] for k, v in store.items()]
+        del puan._verif.events[:]
+        try:
+            res, new = _abs_call(obj, op, c.get("d"), c.get("rule"), tok, case)
+        except (KeyboardInterrupt, SystemExit):
+            raise
+        except BaseException as ex:       # recorded as the call's result (a call on an object a known deviation has changed may fail)
+            res, new = {"raised": type(ex).__name__}, None
+        hooks = [{"id": tok(f["id"]), "new": [proj.I(f["new"][0]), proj.I(f["new"][1])]} for kind, f in puan._verif.events if kind == "assume_overwrite"]
+        del puan._verif.events[:]
+        step = {"h": h, "op": op, "dict": [[tok(k), [int(v[0]), int(v[1])]] for k, v in (c.get("d") or {}).items()],
+                "before": before, "res": res, "res_fresh": case["refs"][k], "hooks": hooks}
+        step["raised"] = isinstance(res, dict) and "raised" in res
+        if op == "add":
+            step["refused"] = False
+            rule_obj_id = B.build(c["rule"]).id
+            step["rule_id"] = tok(rule_obj_id)
+            step["refused"] = bool(res.get("refused")) if not step["raised"] else False
+            step["old_after"] = proj.node(obj, tok)
+            if new is not None:
+                ghosts += 1
+                store["%s_old%d" % (h, ghosts)] = obj       # the old configurator stays alive and observed
+                store[h] = new
+        step["after"] = [[k, proj.node(v, tok)] for k, v in store.items() if k in dict(before)]
+        steps.append(step)
+    return [{"op": "history", "steps": steps, "handles": sorted(case["handles"])}]
